@@ -202,6 +202,16 @@ int cmdEdits(int argc, char** argv) {
 						ops.add("created model saved at stream offset 10");
 						fileEvent(out, caseOf(k), "default", made, os.str().substr(10), ids, ops.done());
 					}
+					// export information of the lengths around the one-byte length limit of its three members
+					for (size_t len : {size_t(253), size_t(254), size_t(255), size_t(256), size_t(509), size_t(700)}) {
+						NifFile ex(at);
+						std::string info;
+						for (size_t q = 0; q < len; q++) info.push_back(char('a' + q % 26));
+						ex.GetHeader().SetExportInfo(info);
+						JArr ops;
+						ops.add("SetExportInfo with " + std::to_string(len) + " characters");
+						fileEvent(out, caseOf(k), "raw", ex, saveToString(ex, false, false), ids, ops.done());
+					}
 					NifFile viaCtor(at);
 					NifFile viaAssign;
 					viaAssign.Load(samplePath(files[(k + 3) % files.size()]));
